@@ -1,11 +1,11 @@
 package sim
 
 import (
-	"runtime"
 	"encoding/json"
 	"fmt"
 	"os"
 	"reflect"
+	"runtime"
 	"sort"
 	"strings"
 	"sync/atomic"
@@ -333,7 +333,7 @@ type ReplayFile struct {
 	// test (package-level state shared between servers or sessions), so one scenario alone does not show it:
 	// replay = execute this worker's runs 0..RunIndex again, in a fresh process, under their own seeds
 	Sequence *SeqReplay `json:"sequence,omitempty"`
-	History   []string     `json:"history_excerpt,omitempty"`
+	History  []string   `json:"history_excerpt,omitempty"`
 }
 
 // SeqReplay identifies a worker's deterministic sequence of runs.
